@@ -32,6 +32,7 @@ CONSTANTS Obj, NULL, ObjSeq,                  \* ObjSeq: the objects in a fixed 
           Acts,                                \* which action kinds are enabled in this instance
           Depth, EXT                           \* depth bound; scaled "extended precision" threshold
 N == INSTANCE FxpN
+A == INSTANCE FxpAlgo WITH MW <- 16            \* the implementation-shaped shift algorithms (growth of << and >> in expand mode)
 
 AllFmts == << [s |-> TRUE, w |-> 3, f |-> 1], [s |-> FALSE, w |-> 3, f |-> 0], [s |-> TRUE, w |-> 4, f |-> 2], [s |-> FALSE, w |-> 2, f |-> 2],
              [s |-> FALSE, w |-> 3, f |-> 1] >>
@@ -189,6 +190,49 @@ DoInvert(S, a) == LET ox == S.objs[a.x] IN
    Put(Forget(S, a.y), a.y, [ox EXCEPT !.codes = [k \in DOMAIN ox.codes |-> N!FromImage(N!PatToNat(N!PatNot(N!Pattern(ox.codes[k], ox.fmt.w))), ox.fmt)]])
 DoDrop(S, a) == Forget(Put(S, a.x, NULL), a.x)
 
+(*********** actions added after the first build: the rest of C20's list (bitwise, shifts, NumPy functions, constants) ***********)
+\* z = x & y / x | y / x ^ y with y a one-element fixed-point object of the same word length, used as  x op y[0]  (the library
+\* combines an array only with a SCALAR fixed-point operand or an integer mask): a DEEP copy of x holding the combined patterns
+DoBitOp(S, a) == LET ox == S.objs[a.x]  oy == S.objs[a.y]  w == ox.fmt.w
+                     img(c) == N!FromImage(N!PatToNat(N!BitwiseOp(a.op, N!Pattern(c, w), N!Pattern(oy.codes[1], w))), ox.fmt)
+                 IN Put(Forget(S, a.z), a.z, [ox EXCEPT !.codes = [k \in DOMAIN ox.codes |-> img(ox.codes[k])]])
+\* z = x & m / m | x / x ^ m with an integer bit mask (either side)
+DoBitMask(S, a) == LET ox == S.objs[a.x]  w == ox.fmt.w
+                       img(c) == N!FromImage(N!PatToNat(N!BitwiseOp(a.op, N!Pattern(c, w), N!Pattern(a.m, w))), ox.fmt)
+                   IN Put(Forget(S, a.z), a.z, [ox EXCEPT !.codes = [k \in DOMAIN ox.codes |-> img(ox.codes[k])]])
+\* y = x << n / x >> n with shifting = 'expand': a NEW object (default Config, clean status) whose word / fraction grew as the
+\* algorithm of the library decides (array-wide lowest set bit, magnitude of the largest element)
+DoShiftExpand(S, a) == LET ox == S.objs[a.x]
+                           r == IF a.dir = "l" THEN A!LShiftExpand(ox.codes, ox.fmt, a.n) ELSE A!RShiftExpand(ox.codes, ox.fmt, a.n)
+                       IN Put(Forget(S, a.y), a.y, [fmt |-> r.fmt, codes |-> r.codes, cfg |-> DefaultCfg, st |-> Clean])
+\* z = np.sum(x) / x.sum() / np.cumsum(x) / np.max(x) / np.min(x) (keepdims): a NEW object; named deviation: the one-operand
+\* function wrapper does not hand x's Config on, so the result has a DEFAULT Config; the inaccuracy of x is inherited
+RedFmt(red, t, n) == IF red \in {"sum", "cumsum"} THEN [t EXCEPT !.w = @ + N!CeilLog2(n)] ELSE t
+RedCodes(red, cs) == CASE red = "sum" -> <<N!ZSumSeq(cs)>> [] red = "max" -> <<N!ZMaxSeq(cs)>> [] red = "min" -> <<N!ZMinSeq(cs)>>
+                       [] red = "cumsum" -> [k \in DOMAIN cs |-> N!ZSumSeq(SubSeq(cs, 1, k))]
+DoReduce(S, a) == LET ox == S.objs[a.x] IN
+   Put(Forget(S, a.z), a.z, [fmt |-> RedFmt(a.red, ox.fmt, Len(ox.codes)), codes |-> RedCodes(a.red, ox.codes), cfg |-> DefaultCfg,
+                             st |-> [o |-> FALSE, u |-> FALSE, i |-> ox.st.i]])
+\* z = x + k / k + x / x - k / k - x / x * k with a plain number k: the constant is first converted into a fixed-point constant LIKE x
+\* (op_input_size = 'same': x's format and modes), the result has x's format (const_op_sizing = 'same') and a copy of x's Config;
+\* it is inexact when x was, or when the constant did not fit x's format exactly
+DoBinOpConst(S, a) == LET ox == S.objs[a.x]  t == ox.fmt
+                          qc == Q(a.k4, t, ox.cfg)
+                          qs == [j \in DOMAIN ox.codes |-> IF a.side = "r" THEN N!ArithInto(a.op, ox.codes[j], t, qc.code, t, t, ox.cfg.rnd, ox.cfg.ovf)
+                                                                            ELSE N!ArithInto(a.op, qc.code, t, ox.codes[j], t, t, ox.cfg.rnd, ox.cfg.ovf)]
+                          st == OrSt(FoldQ(qs), [o |-> FALSE, u |-> FALSE, i |-> ox.st.i \/ qc.inexact])
+                      IN Put(Forget(S, a.z), a.z, [fmt |-> t, codes |-> CodesOf(qs), cfg |-> ox.cfg, st |-> st])
+\* x += y / x -= y / x *= y: NOT in place - the name x is rebound to the new object  x op y  (views of the old x keep the old memory,
+\* the old flags are gone, the format is the grown one)
+DoIOp(S, a) == DoBinOp(S, [act |-> "BinOp", z |-> a.x, op |-> a.op, x |-> a.x, y |-> a.y])
+\* x.set_val(codes, raw=True): the integers are CODES; out-of-range codes are saturated / wrapped and flagged like values
+QRaw(c, t, cf) == N!Quantize([m |-> c, e |-> -t.f], t, cf.rnd, cf.ovf)
+DoSetRaw(S, a) == LET ob == S.objs[a.x]
+                      qs == [j \in DOMAIN a.cs |-> QRaw(a.cs[j], ob.fmt, ob.cfg)]
+                      S1 == Put(Unlink(S, a.x), a.x, [ob EXCEPT !.codes = CodesOf(qs)])
+                  IN SetSt(S1, a.x, OrSt(ob.st, FoldQ(qs)))
+RawGrid(t) == {1, N!Hi(t), N!Hi(t) + 1, N!Lo(t) - 1}
+
 Step(S, a) == CASE a.act = "New" -> DoNew(S, a)           [] a.act = "Store" -> DoStore(S, a)
                 [] a.act = "SetItem" -> DoSetItem(S, a)   [] a.act = "GetItem" -> DoGetItem(S, a)
                 [] a.act = "SetItemFxp" -> DoSetItemFxp(S, a)
@@ -204,11 +248,16 @@ Step(S, a) == CASE a.act = "New" -> DoNew(S, a)           [] a.act = "Store" -> 
                 [] a.act = "RShiftKeep" -> DoRShiftKeep(S, a) [] a.act = "Invert" -> DoInvert(S, a)
                 [] a.act = "LShiftKeep" -> DoLShiftKeep(S, a)
                 [] a.act = "Drop" -> DoDrop(S, a)
+                [] a.act = "BitOp" -> DoBitOp(S, a)       [] a.act = "BitMask" -> DoBitMask(S, a)
+                [] a.act = "ShiftExpand" -> DoShiftExpand(S, a) [] a.act = "Reduce" -> DoReduce(S, a)
+                [] a.act = "BinOpConst" -> DoBinOpConst(S, a) [] a.act = "IOp" -> DoIOp(S, a)
+                [] a.act = "SetRaw" -> DoSetRaw(S, a)
 \* callbacks a recorder registered on the written object sees during the step
 CbStep(S, a) == CASE a.act = "Store" -> CbOf(FoldQ([j \in DOMAIN a.ks |-> Q(a.ks[j], S.objs[a.x].fmt, S.objs[a.x].cfg)]))
                   [] a.act = "SetItem" -> CbOf(FoldQ(<<Q(a.k4, S.objs[a.x].fmt, S.objs[a.x].cfg)>>))
                   [] a.act = "SetItemFxp" -> CbOf(FoldQ(<<N!Convert(S.objs[a.y].codes[1], S.objs[a.y].fmt, S.objs[a.x].fmt,
                                                                     S.objs[a.x].cfg.rnd, S.objs[a.x].cfg.ovf)>>))
+                  [] a.act = "SetRaw" -> CbOf(FoldQ([j \in DOMAIN a.cs |-> QRaw(a.cs[j], S.objs[a.x].fmt, S.objs[a.x].cfg)]))
                   [] OTHER -> <<>>
 
 (************************** enabled actions (small scope) ******************)
@@ -256,7 +305,19 @@ Enabled(S) ==
      IF "RShiftKeep" \in Acts THEN { [act |-> "RShiftKeep", y |-> y, x |-> x, n |-> n] : y \in { z \in Obj : Free(S, z) }, x \in Live(S), n \in {0, 1} } ELSE {},
      IF "LShiftKeep" \in Acts THEN { [act |-> "LShiftKeep", y |-> y, x |-> x, n |-> n] : y \in { z \in Obj : Free(S, z) }, x \in Live(S), n \in {0, 1} } ELSE {},
      IF "Invert" \in Acts THEN { [act |-> "Invert", y |-> y, x |-> x] : y \in { z \in Obj : Free(S, z) }, x \in Live(S) } ELSE {},
-     IF "Drop" \in Acts THEN { [act |-> "Drop", x |-> x] : x \in Live(S) } ELSE {}
+     IF "Drop" \in Acts THEN { [act |-> "Drop", x |-> x] : x \in Live(S) } ELSE {},
+     IF "BinOpSub" \in Acts THEN { [act |-> "BinOp", z |-> z, op |-> "sub", x |-> x, y |-> y] : z \in { v \in Obj : Free(S, v) }, x \in Live(S), y \in Live(S) } ELSE {},
+     IF "BitOp" \in Acts THEN { r \in { [act |-> "BitOp", z |-> z, op |-> op, x |-> x, y |-> y] : z \in { v \in Obj : Free(S, v) }, op \in {"and", "or", "xor"},
+          x \in Live(S), y \in Live(S) } : LenOf(S, r.y) = 1 /\ S.objs[r.x].fmt.w = S.objs[r.y].fmt.w } ELSE {},
+     IF "BitMask" \in Acts THEN UNION { { [act |-> "BitMask", z |-> z, op |-> os[1], x |-> x, m |-> m, side |-> os[2]] : z \in { v \in Obj : Free(S, v) },
+          os \in {<<"and", "l">>, <<"and", "r">>, <<"or", "l">>, <<"xor", "r">>}, m \in {1, 2^S.objs[x].fmt.w - 2} } : x \in Live(S) } ELSE {},
+     IF "ShiftExpand" \in Acts THEN { [act |-> "ShiftExpand", y |-> y, x |-> x, dir |-> d, n |-> n] : y \in { z \in Obj : Free(S, z) }, x \in Live(S), d \in {"l", "r"}, n \in {0, 1, 2} } ELSE {},
+     IF "Reduce" \in Acts THEN { [act |-> "Reduce", z |-> z, x |-> x, red |-> rd] : z \in { v \in Obj : Free(S, v) }, x \in Live(S), rd \in {"sum", "cumsum", "max", "min"} } ELSE {},
+     IF "BinOpConst" \in Acts THEN UNION { { [act |-> "BinOpConst", z |-> z, op |-> os[1], x |-> x, k4 |-> k, side |-> os[2]] : z \in { v \in Obj : Free(S, v) },
+          os \in {<<"add", "l">>, <<"sub", "l">>, <<"sub", "r">>, <<"mul", "r">>}, k \in Grid(S.objs[x].fmt) } : x \in Live(S) } ELSE {},
+     IF "IOp" \in Acts THEN { [act |-> "IOp", x |-> x, op |-> op, y |-> y] : op \in {"add", "sub", "mul"}, x \in Live(S), y \in Live(S) } ELSE {},
+     IF "SetRaw" \in Acts THEN UNION { { [act |-> "SetRaw", x |-> x, cs |-> IF LenOf(S, x) = 2 THEN <<c1, c2>> ELSE <<c1>>] :
+          c1 \in RawGrid(S.objs[x].fmt), c2 \in (IF LenOf(S, x) = 2 THEN {1, N!Hi(S.objs[x].fmt) + 1} ELSE {0}) } : x \in Live(S) } ELSE {}
    }
 
 (***************************** the state machine ***************************)
@@ -284,10 +345,10 @@ WellFormed == \A x \in Live(st) : \A j \in DOMAIN st.objs[x].codes : N!InRange(s
 NoSharedConfig == st.csh = {} /\ st.ssh = {}
 ViewsOnly == \A b \in st.mem : \A e1 \in b, e2 \in b : st.objs[e1[1]].codes[e1[2]] = st.objs[e2[1]].codes[e2[2]]
 \* C20 (behavioural): a step changes what OTHER objects show only through shared memory of an indexed write
-Target(l) == IF l.act \in {"New", "Store", "SetItem", "SetItemFxp", "Resize", "Reset", "SetCfg", "SetCfgBad", "Assign", "Drop"} THEN l.x
+Target(l) == IF l.act \in {"New", "Store", "SetItem", "SetItemFxp", "Resize", "Reset", "SetCfg", "SetCfgBad", "Assign", "Drop", "IOp", "SetRaw"} THEN l.x
              ELSE IF l.act = "BinOpOut" THEN l.z
-             ELSE IF l.act \in {"GetItem", "CtorLike", "NewLike", "Like", "LikeShallow", "CopyShallow", "DeepCopy", "RShiftKeep", "LShiftKeep", "Invert"} THEN l.y
-             ELSE IF l.act \in {"BinOp", "Neg"} THEN l.z ELSE NULL
+             ELSE IF l.act \in {"GetItem", "CtorLike", "NewLike", "Like", "LikeShallow", "CopyShallow", "DeepCopy", "RShiftKeep", "LShiftKeep", "Invert", "ShiftExpand"} THEN l.y
+             ELSE IF l.act \in {"BinOp", "Neg", "BitOp", "BitMask", "Reduce", "BinOpConst"} THEN l.z ELSE NULL
 NonInterference == [][ \A p \in Obj : (p # Target(last') /\ st.objs[p] # NULL /\ st'.objs[p] # st.objs[p])
                           => (last'.act \in {"SetItem", "SetItemFxp"} /\ \E b \in st.mem : <<last'.x, last'.j>> \in b /\ \E k \in DOMAIN st.objs[p].codes : <<p, k>> \in b) ]_vars
 \* C20: chained indexed assignment writes through to the parent
@@ -297,7 +358,8 @@ ViewWriteThrough == [][ (last'.act \in {"SetItem", "SetItemFxp"}) =>
 \* C20: an invalid configuration value changes nothing
 BadConfigRejected == [][ last'.act = "SetCfgBad" => st' = st ]_vars
 \* C04: flags are sticky until reset()
-Creates(l) == l.act \in {"New", "GetItem", "CtorLike", "NewLike", "Like", "LikeShallow", "CopyShallow", "DeepCopy", "BinOp", "Neg", "Drop", "RShiftKeep", "LShiftKeep", "Invert"}
+Creates(l) == l.act \in {"New", "GetItem", "CtorLike", "NewLike", "Like", "LikeShallow", "CopyShallow", "DeepCopy", "BinOp", "Neg", "Drop", "RShiftKeep", "LShiftKeep", "Invert",
+                           "BitOp", "BitMask", "ShiftExpand", "Reduce", "BinOpConst", "IOp"}
 \* (SetItemFxp is a write: flags sticky, callbacks exact)
 Sticky == [][ \A p \in Obj : (/\ st.objs[p] # NULL /\ st'.objs[p] # NULL
                                /\ ~(Creates(last') /\ Target(last') = p)           \* p is the same object before and after
@@ -311,17 +373,42 @@ ResetLeavesRest == [][ last'.act = "Reset" =>
                          /\ st'.objs[last'.x].fmt = st.objs[last'.x].fmt /\ st'.objs[last'.x].codes = st.objs[last'.x].codes
                          /\ st'.objs[last'.x].cfg = st.objs[last'.x].cfg /\ Ext(st', last'.x) = Ext(st, last'.x) ]_vars
 \* C04: a write raises a flag iff the condition occurred in THIS write or it was raised before; callbacks = exactly the new conditions
-FlagIff == [][ last'.act \in {"Store", "SetItem"} =>
+FlagIff == [][ last'.act \in {"Store", "SetItem", "SetRaw"} =>
                  LET x == last'.x
                      qs == IF last'.act = "Store" THEN [j \in DOMAIN last'.ks |-> Q(last'.ks[j], st.objs[x].fmt, st.objs[x].cfg)]
+                           ELSE IF last'.act = "SetRaw" THEN [j \in DOMAIN last'.cs |-> QRaw(last'.cs[j], st.objs[x].fmt, st.objs[x].cfg)]
                            ELSE <<Q(last'.k4, st.objs[x].fmt, st.objs[x].cfg)>>
                  IN /\ st'.objs[x].st = OrSt(st.objs[x].st, FoldQ(qs))
                     /\ last'.cb = CbOf(FoldQ(qs)) ]_vars
 \* C04: results of arithmetic carry the inaccuracy flag whenever an operand carried it
-InaccPropagates == [][ last'.act \in {"BinOp", "BinOpOut"} => ((st.objs[last'.x].st.i \/ st.objs[last'.y].st.i) => st'.objs[last'.z].st.i) ]_vars
+InaccPropagates == [][ /\ (last'.act \in {"BinOp", "BinOpOut"} => ((st.objs[last'.x].st.i \/ st.objs[last'.y].st.i) => st'.objs[last'.z].st.i))
+                       /\ (last'.act = "IOp" => ((st.objs[last'.x].st.i \/ st.objs[last'.y].st.i) => st'.objs[last'.x].st.i))
+                       /\ (last'.act \in {"Reduce", "BinOpConst"} => (st.objs[last'.x].st.i => st'.objs[last'.z].st.i)) ]_vars
 \* C10/C20: deriving never changes the source
-SourceUnchanged == [][ last'.act \in {"CtorLike", "NewLike", "Like", "DeepCopy", "GetItem", "BinOp", "Neg", "RShiftKeep", "LShiftKeep", "Invert"} =>
+SourceUnchanged == [][ last'.act \in {"CtorLike", "NewLike", "Like", "DeepCopy", "GetItem", "BinOp", "Neg", "RShiftKeep", "LShiftKeep", "Invert",
+                                        "BitOp", "BitMask", "ShiftExpand", "Reduce", "BinOpConst", "IOp"} =>
                          \A p \in Obj \ {Target(last')} : st'.objs[p] = st.objs[p] ]_vars
+\* C14 (system level): in expand mode a shift scales by a power of two EXACTLY and leaves the operand alone
+ShiftExact == [][ last'.act = "ShiftExpand" =>
+                    LET ox == st.objs[last'.x]  oy == st'.objs[last'.y] IN
+                    /\ Len(oy.codes) = Len(ox.codes)
+                    /\ \A j \in DOMAIN ox.codes : N!DEq(N!ValueOf(oy.codes[j], oy.fmt),
+                                                       N!Scale(N!ValueOf(ox.codes[j], ox.fmt), IF last'.dir = "l" THEN last'.n ELSE -last'.n))
+                    /\ oy.st = Clean ]_vars
+\* C15 (system level): sums never overflow with the grown word, max / min keep the format; values exact
+ReduceExact == [][ last'.act = "Reduce" =>
+                     LET ox == st.objs[last'.x]  oz == st'.objs[last'.z] IN
+                     /\ \A j \in DOMAIN oz.codes : N!InRange(oz.codes[j], oz.fmt)
+                     /\ oz.fmt.f = ox.fmt.f /\ ~oz.st.o /\ ~oz.st.u
+                     /\ (last'.red = "sum" => oz.codes[1] = N!ZSumSeq(ox.codes)) ]_vars
+\* C13 (system level): ~ and the mask operators are involutions / idempotent where the laws say so: x ^ m ^ m = x is checked by replay;
+\* here: the result keeps x's format, Config and flags (a deep copy) and stays in range
+BitKeepsFormat == [][ last'.act \in {"BitOp", "BitMask", "Invert"} =>
+                        LET ox == st.objs[last'.x]  oz == st'.objs[Target(last')] IN
+                        /\ oz.fmt = ox.fmt /\ oz.cfg = ox.cfg /\ oz.st = ox.st
+                        /\ \A j \in DOMAIN oz.codes : N!InRange(oz.codes[j], oz.fmt) ]_vars
+\* x += y rebinds the name: whatever was a view of the old x still shows the old values
+IOpRebinds == [][ last'.act = "IOp" => \A p \in Obj \ {last'.x} : st'.objs[p] = st.objs[p] ]_vars
 \* export of behaviours for the replay harness: TLC evaluates invariants on every generated state, before duplicate
 \* detection, so this prints one behaviour per TRANSITION of the bounded model (a complete transition cover)
 EmitHist == hist = <<>> \/ PrintT(ToJson([k |-> "beh", h |-> hist]))
